@@ -569,6 +569,8 @@ impl<H: Hal, T: Transport> VirtIOSound<H, T> {
                     tail = 0;
                 }
             }
+            #[cfg(virtio_drivers_verif)]
+            crate::verif::spin();
             spin_loop();
         }
 
